@@ -65,7 +65,10 @@ def gen_grid(case):
         case.note('axis:dtype_gridded:float32')
     gform = AX.seq_form(case, 'grid_xypos_form')
     gpos = gform(np.array([pos[i] for i in order]))
-    meta = {'grid_xypos': gpos, 'oversampling': over if rng.random() < 0.7 else (over, over)}
+    ro = rng.random()
+    ovs = over if ro < 0.5 else ((over, over) if ro < 0.65 else [(4, 2), (2, 4), (1, 2), (3, 1)][int(rng.integers(0, 4))])
+    case.note('axis2_anisotropy_gridded:' + ('pair_different' if ro >= 0.65 else 'same'))
+    meta = {'grid_xypos': gpos, 'oversampling': ovs}
 
     def mkdata():
         return lay(data)
